@@ -10,7 +10,8 @@ THEOREMS = ["AcqVerif.Channel.Translated.%s" % t for t in (
     "channel_write_unmap_eq", "channel_abort_write_eq", "channel_accept_writes_eq", "reader_initialize_eq",
     "channel_read_map_eq", "channel_read_map_notifies_iff", "channel_read_unmap_eq")] + [
     "AcqVerif.Channel.Refine.%s" % t for t in ("refine_step", "refine_run", "refine_history", "write_region_in_buffer", "read_map_translated",
-                                               "write_avoids_mapped_readers", "status_stays_ok", "handle_ids", "cursors_in_bounds", "bookmarks_behind_writer")]
+                                               "write_avoids_mapped_readers", "status_stays_ok", "handle_ids", "cursors_in_bounds", "bookmarks_behind_writer",
+                                               "model_region_avoids_pending", "mapped_regions_avoid_pending_write")]
 NEEDED = ("cursor_cmp", "reader_min", "next_write", "get_available_byte_count", "reader_initialize", "channel_write_map",
           "channel_write_unmap", "channel_abort_write", "channel_accept_writes", "channel_read_map", "channel_read_unmap")
 
